@@ -83,6 +83,19 @@ def subspaces(tier):
                 for b in ts:
                     yield {'k': 'seq', 'files': [f, b], 'flags': list(fl)}
     subs.append(('pairs:failing-predecessor', fpairs()))
+    OPTS18 = [['-u'], ['-C'], ['-A'], ['-L'], ['-g', 'MAP'], ['-s', '-L'], ['-x', '-x'], ['-P'], ['-M'], ['-r'], ['-u', '-Werror'], ['-I', '-L'], ['-t', '255', '-L']]
+
+    def optpairs():
+        ts = g.get((), [])
+        n = len(ts)
+        for o in OPTS18:
+            for i in range(n):
+                for dlt in ((1, 2, 7) if tier == 'quick' else (1, 2, 3, 7, 50)):
+                    yield {'k': 'seq', 'files': [ts[(i - dlt) % n], ts[i]], 'flags': o}
+            for f in ('f_if0', 'f_macro', 'f_section', 'f_ok_defsym'):
+                for i in range(n):
+                    yield {'k': 'seq', 'files': [f, ts[i]], 'flags': o}
+    subs.append(('pairs:under-report-options', optpairs()))
     if tier != 'quick':
         def triples():
             ts = g.get((), [])
